@@ -23,21 +23,24 @@ Definition sinv (l0 : ledger) (st : sim) (l : ledger) : Prop :=
 Lemma get_put_same l a s : get_state (put_state l a s) a = Some s.
 Proof. unfold get_state, put_state, set_accts. cbn [accts]. apply nget_nset_same. Qed.
 
+(* the mempool entry made from a transaction (whatever its expiry time) *)
+Definition entry_rel (t : tx) (e : mentry) : Prop := exists exp, entry_of_tx cfg t exp = Ok e.
+
 Lemma sim_step l0 store txid sg h st e1 st' l t1 l' :
   0 < h < two64 -> tx_good t1 ->
-  entry_of_tx cfg t1 0 = Ok e1 -> nget store (tx_id t1) = Some t1 ->
+  entry_rel t1 e1 -> nget store (tx_id t1) = Some t1 ->
   apply_tx cfg l t1 h 0 (h - 1) = Ok l' ->
   sim_entry cfg false l0 store txid sg h st e1 = Ok st' ->
   sinv l0 st l -> sinv l0 st' l'.
 Proof.
-  intros Hh (Hty & Hwf & Htot & Hr0) He Hst Ha Hs (Hag & Hdr & Hli & Hb).
+  intros Hh (Hty & Hwf & Htot & Hr0) (exp & He) Hst Ha Hs (Hag & Hdr & Hli & Hb).
   destruct st as [m sd]. cbn [s_states s_dlgs] in *.
   destruct (tx_total cfg t1) as [tot|] eqn:Etot; [|congruence]. clear Htot.
   pose proof (apply_tx_total cfg l t1 h 0 (h - 1) l' tot Hb Hwf Etot Ha) as Htotal.
   assert (Hb' : total_bal l' < two64) by lia.
   pose proof He as He0.
   unfold entry_of_tx in He. bind_inv He. rename a into outs. injection He as <-.
-  set (e1 := mkmentry (tx_id t1) (tx_version t1) (tx_vsize cfg t1) (tx_fee t1) 0 (addr_of_key (tx_signer t1))
+  set (e1 := mkmentry (tx_id t1) (tx_version t1) (tx_vsize cfg t1) (tx_fee t1) exp (addr_of_key (tx_signer t1))
                       (state_inputs cfg t1 (addr_of_key (tx_signer t1))) (map (fun o => (o_rcpt o, o_amt o)) outs)) in *.
   rewrite apply_tx_eq in Ha. opt_inv Ha. rename x into s0. guard_inv Ha. bind_inv Ha. destruct a as [lk st1].
   unfold sim_entry in Hs. cbn [s_states s_dlgs] in Hs. guard_inv Hs. bind_inv Hs. rename a into m2.
@@ -51,7 +54,7 @@ Proof.
     cbn [wf_data] in Hwd.
   - (* transfer *)
     injection E1 as <- <-. injection Hs as <-. cbn [s_states s_dlgs].
-    destruct (tail_agree cfg l s0 t1 h 0 l' m e1 m2 tot Ha E0 Hag Hb Hwf Etot He0 E2) as (A & B & C).
+    destruct (tail_agree cfg l s0 t1 h 0 l' m e1 m2 tot exp Ha E0 Hag Hb Hwf Etot He0 E2) as (A & B & C).
     split; [exact A|]. split; [eapply drel_ext; eassumption|]. split; [eapply linv_ext; eassumption|exact Hb'].
   - (* register *)
     guard_inv E1. injection E1 as <- <-. injection Hs as <-. cbn [s_states s_dlgs].
@@ -59,7 +62,7 @@ Proof.
     set (lk := put_dlg l (mkdlg id (tx_signer t1) name [])) in *.
     assert (Hid : id <> 0) by (intros ->; exact (Hr0 nl name eq_refl)).
     destruct (register_rel l0 sd l id (tx_signer t1) name name Egd Hdr Hli Hid) as [Hdr' Hli']. fold lk in Hdr', Hli'.
-    destruct (tail_agree cfg lk s0 t1 h 0 l' m e1 m2 tot Ha E0 (agree_accts l lk m eq_refl Hag) Hb Hwf Etot He0 E2) as (A & B & C).
+    destruct (tail_agree cfg lk s0 t1 h 0 l' m e1 m2 tot exp Ha E0 (agree_accts l lk m eq_refl Hag) Hb Hwf Etot He0 E2) as (A & B & C).
     split; [exact A|]. split; [eapply drel_ext; eassumption|]. split; [eapply linv_ext; eassumption|exact Hb'].
   - (* set delegate *)
     guard_inv E1. guard_inv E1. guard_inv E1. injection E1 as <- <-.
@@ -105,7 +108,7 @@ Proof.
       as (Hdr' & Hli' & Hacc).
     assert (Hg : get_state lk signer = Some s0) by (unfold get_state; rewrite Hacc; exact E0).
     assert (Hbk : total_bal lk < two64) by (unfold total_bal; rewrite Hacc; exact Hb).
-    destruct (tail_agree cfg lk s0 t1 h 0 l' m _ m2 tot Ha Hg (agree_accts l lk m Hacc Hag) Hbk Hwf Etot He0 E2) as (A & B & C).
+    destruct (tail_agree cfg lk s0 t1 h 0 l' m _ m2 tot exp Ha Hg (agree_accts l lk m Hacc Hag) Hbk Hwf Etot He0 E2) as (A & B & C).
     split; [exact A|]. split; [eapply drel_ext; eassumption|]. split; [eapply linv_ext; eassumption|exact Hb'].
   - (* unstake *)
     guard_inv E1. guard_inv E1. bind_inv E1. injection E1 as -> <-.
@@ -119,24 +122,30 @@ Proof.
       as (Hdr' & Hli' & Hacc).
     assert (Hg : get_state lk signer = Some s0) by (unfold get_state; rewrite Hacc; exact E0).
     assert (Hbk : total_bal lk < two64) by (unfold total_bal; rewrite Hacc; exact Hb).
-    destruct (tail_agree cfg lk s0 t1 h 0 l' m _ m2 tot Ha Hg (agree_accts l lk m Hacc Hag) Hbk Hwf Etot He0 E2) as (A & B & C).
+    destruct (tail_agree cfg lk s0 t1 h 0 l' m _ m2 tot exp Ha Hg (agree_accts l lk m Hacc Hag) Hbk Hwf Etot He0 E2) as (A & B & C).
     split; [exact A|]. split; [eapply drel_ext; eassumption|]. split; [eapply linv_ext; eassumption|exact Hb'].
 Qed.
-Lemma sim_steps l0 store txid sg h ts : forall es l l1 st st',
+Lemma entries_of_rel ts : forall es, entries_of cfg ts = Ok es -> Forall2 entry_rel ts es.
+Proof.
+  induction ts as [|t1 ts IH]; intros es He; cbn [entries_of] in He.
+  - injection He as <-. constructor.
+  - apply bind_ok in He. destruct He as (e1 & E & He). apply bind_ok in He. destruct He as (es' & E0 & He).
+    injection He as <-. constructor; [exists 0; exact E|apply IH; exact E0].
+Qed.
+
+Lemma sim_steps l0 store txid sg h ts es : Forall2 entry_rel ts es -> forall l l1 st st',
   0 < h < two64 -> Forall tx_good ts -> (forall t, In t ts -> nget store (tx_id t) = Some t) ->
-  entries_of cfg ts = Ok es -> apply_all cfg l ts h = Ok l1 ->
+  apply_all cfg l ts h = Ok l1 ->
   sim_entries cfg false l0 store txid sg h st es = Ok st' ->
   sinv l0 st l -> sinv l0 st' l1.
 Proof.
-  induction ts as [|t1 ts IH]; intros es l l1 st st' Hh Hall Hstore He Ha Hs Hinv.
-  - cbn in He, Ha. injection He as <-. injection Ha as <-. cbn in Hs. injection Hs as <-. exact Hinv.
+  induction 1 as [|t1 e1 ts es He _ IH]; intros l l1 st st' Hh Hall Hstore Ha Hs Hinv.
+  - cbn in Ha. injection Ha as <-. cbn in Hs. injection Hs as <-. exact Hinv.
   - inversion Hall as [|? ? Ht1 Hall']; subst.
-    cbn [entries_of] in He. apply bind_ok in He. destruct He as (e1 & E & He).
-    apply bind_ok in He. destruct He as (es' & E0 & He). injection He as <-.
     cbn [apply_all] in Ha. apply bind_ok in Ha. destruct Ha as (l' & E1 & Ha).
     cbn [sim_entries] in Hs. apply bind_ok in Hs. destruct Hs as (st1 & E2 & Hs).
-    pose proof (sim_step l0 store txid sg h st e1 st1 l t1 l' Hh Ht1 E (Hstore t1 (or_introl eq_refl)) E1 E2 Hinv) as Hinv'.
-    apply (IH es' l' l1 st1 st' Hh Hall' (fun t Ht => Hstore t (or_intror Ht)) E0 Ha Hs Hinv').
+    pose proof (sim_step l0 store txid sg h st e1 st1 l t1 l' Hh Ht1 He (Hstore t1 (or_introl eq_refl)) E1 E2 Hinv) as Hinv'.
+    apply (IH l' l1 st1 st' Hh Hall' (fun t Ht => Hstore t (or_intror Ht)) Ha Hs Hinv').
 Qed.
 
 (* staked total + key-address balances along the earlier transactions *)
@@ -316,7 +325,7 @@ End Current2.
 Theorem simulation_sound_general l store ts es t h l1 :
   0 < h < two64 ->
   Forall tx_good ts -> (forall t', In t' ts -> nget store (tx_id t') = Some t') ->
-  entries_of cfg ts = Ok es -> apply_all cfg l ts h = Ok l1 ->
+  Forall2 entry_rel ts es -> apply_all cfg l ts h = Ok l1 ->
   linv l -> staked l + total_bal l < two64 ->
   tx_typed t -> wf_tx cfg t -> tx_vsize cfg t <= max_tx_size cfg ->
   validate_mempool_tx cfg false l store t es h = Ok tt ->
@@ -336,7 +345,7 @@ Proof.
     - apply drel_start.
     - exact Hli.
     - exact Hb. }
-  destruct (sim_steps l store (tx_id t) (addr_of_key (tx_signer t)) h ts es l l1 _ st Hh Hall Hstore He Ha E0 Hinv0)
+  destruct (sim_steps l store (tx_id t) (addr_of_key (tx_signer t)) h ts es He l l1 _ st Hh Hall Hstore Ha E0 Hinv0)
     as (A & B & C & D).
   eapply (check_current_sound2 l l1 t h 0 st); try eassumption. congruence.
 Qed.
@@ -359,7 +368,8 @@ Theorem simulation_sound_all_kinds l ts es t h l1 :
   validate_mempool_tx cfg false l (store_of ts) t es h = Ok tt ->
   exists l2, apply_tx cfg l1 t h 0 (h - 1) = Ok l2.
 Proof.
-  intros Hh Hall Hnd. apply simulation_sound_general; [exact Hh|exact Hall|apply store_of_lookup; exact Hnd].
+  intros Hh Hall Hnd He. apply simulation_sound_general;
+    [exact Hh|exact Hall|apply store_of_lookup; exact Hnd|apply entries_of_rel; exact He].
 Qed.
 
 End General.
